@@ -18,18 +18,21 @@ use serde_json::json;
 #[derive(Clone, Debug, PartialEq, Eq)]
 pub enum T {
     Leaf(String),
-    Tup(Vec<T>),
+    /// tuple name (None = anonymous), fields (label, value)
+    Tup(Option<String>, Vec<(Option<String>, T)>),
 }
 
 impl T {
     pub fn sx(&self) -> String {
         match self {
             T::Leaf(n) => format!("(l {})", hx(n)),
-            T::Tup(fs) => {
-                let mut s = String::from("(t");
-                for f in fs {
-                    s.push(' ');
-                    s.push_str(&f.sx());
+            T::Tup(name, fs) => {
+                let mut s = format!("(t {}", name.as_ref().map_or("_".to_string(), |n| hx(n)));
+                for (l, f) in fs {
+                    match l {
+                        Some(l) => s.push_str(&format!(" (n {} {})", hx(l), f.sx())),
+                        None => s.push_str(&format!(" (u {})", f.sx())),
+                    }
                 }
                 s.push(')');
                 s
@@ -37,26 +40,44 @@ impl T {
         }
     }
 
-    /// `[a, [b, c]]`
+    /// `A[a, x: [b, c]]`
     pub fn flat(&self) -> String {
         match self {
             T::Leaf(n) => n.clone(),
-            T::Tup(fs) => format!("[{}]", fs.iter().map(|f| f.flat()).collect::<Vec<_>>().join(", ")),
+            T::Tup(Some(n), fs) if fs.is_empty() => n.clone(),
+            T::Tup(name, fs) => format!(
+                "{}[{}]",
+                name.as_deref().unwrap_or(""),
+                fs.iter()
+                    .map(|(l, f)| match l {
+                        Some(l) => format!("{l}: {}", f.flat()),
+                        None => f.flat(),
+                    })
+                    .collect::<Vec<_>>()
+                    .join(", ")
+            ),
         }
     }
 
-    /// a random layout: anything `wsc` accepts inside the brackets, optional trailing comma
+    /// a random layout: anything `wsc` accepts inside the brackets, optional trailing comma,
+    /// `A[]` for the bare name `A`, any white space after a label's colon
     pub fn layout(&self, r: &mut Rng) -> String {
         match self {
             T::Leaf(n) => n.clone(),
-            T::Tup(fs) => {
-                let mut s = String::from("[");
+            T::Tup(Some(n), fs) if fs.is_empty() && r.chance(2, 3) => n.clone(),
+            T::Tup(name, fs) => {
+                let mut s = format!("{}[", name.as_deref().unwrap_or(""));
                 s.push_str(&gap(r));
-                for (i, f) in fs.iter().enumerate() {
+                for (i, (l, f)) in fs.iter().enumerate() {
                     if i > 0 {
                         s.push_str(&gap(r));
                         s.push(',');
                         s.push_str(&gap(r));
+                    }
+                    if let Some(l) = l {
+                        s.push_str(l);
+                        s.push(':');
+                        s.push_str(*r.pick(&[" ", "  ", "\n", " \n  ", "\t"]));
                     }
                     s.push_str(&f.layout(r));
                 }
@@ -105,9 +126,21 @@ fn name(r: &mut Rng) -> String {
     s
 }
 
+fn tuple_name(r: &mut Rng) -> String {
+    let first = b"ABCDEFGHIJKLMNOPQRSTUVWXYZ";
+    let body = b"abcxyzABCXYZ0189_";
+    let mut s = String::new();
+    s.push(*r.pick(first) as char);
+    let len = if r.chance(1, 8) { 10 + r.usize(30) } else { r.usize(6) };
+    for _ in 0..len {
+        s.push(*r.pick(body) as char);
+    }
+    s
+}
+
 pub fn gen_term(r: &mut Rng, depth: usize) -> T {
     if depth == 0 || r.chance(2, 5) {
-        return T::Leaf(name(r));
+        return if r.chance(1, 4) { T::Tup(Some(tuple_name(r)), vec![]) } else { T::Leaf(name(r)) };
     }
     let n = match r.below(10) {
         0 => 0,
@@ -115,7 +148,17 @@ pub fn gen_term(r: &mut Rng, depth: usize) -> T {
         4..=7 => 2 + r.usize(3),
         _ => 5 + r.usize(8),
     };
-    T::Tup((0..n).map(|_| gen_term(r, depth - 1)).collect())
+    let tname = if r.chance(1, 2) { Some(tuple_name(r)) } else { None };
+    let labelled = r.below(3); // 0: none, 1: some, 2: all
+    T::Tup(
+        tname,
+        (0..n)
+            .map(|_| {
+                let l = if labelled == 2 || (labelled == 1 && r.chance(1, 2)) { Some(name(r)) } else { None };
+                (l, gen_term(r, depth - 1))
+            })
+            .collect(),
+    )
 }
 
 fn term_of(t: &Term) -> Option<T> {
@@ -125,21 +168,20 @@ fn term_of(t: &Term) -> Option<T> {
             _ => None,
         },
         Term::Tuple(tu) => {
-            if tu.name != TupleName::Anonymous {
-                return None;
-            }
+            let name = match &tu.name {
+                TupleName::Anonymous => None,
+                TupleName::Named(n) => Some(n.clone()),
+                _ => return None,
+            };
             let mut fs = vec![];
             for f in &tu.fields {
-                if f.name.is_some() {
-                    return None;
-                }
                 let FieldValue::Chain(c) = &f.value else { return None };
                 if c.match_pattern.is_some() || c.terms.len() != 1 {
                     return None;
                 }
-                fs.push(term_of(&c.terms[0])?);
+                fs.push((f.name.clone(), term_of(&c.terms[0])?));
             }
-            Some(T::Tup(fs))
+            Some(T::Tup(name, fs))
         }
         _ => None,
     }
